@@ -76,8 +76,68 @@ pub fn modes_child(args: &[String]) -> i32 {
     0
 }
 
-fn modes(rep: &mut Report) {
+/// Two sinks created concurrently with Mode::Create on one absent path: the file
+/// exists for exactly one of them, so exactly one may succeed.
+fn create_race(rep: &mut Report) {
+    use std::sync::{Arc, Barrier};
+    let dir = tempfile::tempdir().expect("tempdir");
+    let rounds = 300;
+    let mut both = 0;
+    for k in 0..rounds {
+        let path = dir.path().join(format!("race-{k}"));
+        let barrier = Arc::new(Barrier::new(2));
+        let hs: Vec<_> = (0..2)
+            .map(|_| {
+                let (p, b) = (path.clone(), barrier.clone());
+                std::thread::spawn(move || {
+                    let (_w, r) = new_stream::<u32>();
+                    b.wait();
+                    FileSink::new(r, &p, Mode::Create).is_ok()
+                })
+            })
+            .collect();
+        let oks = hs.into_iter().map(|h| h.join().unwrap_or(false)).filter(|x| *x).count();
+        rep.count("create_race_rounds", 1);
+        if oks == 2 {
+            both += 1;
+        } else if oks == 0 {
+            rep.violation("C17|modes|copy|Create|race|both-failed", format!("round {k}: two concurrent Mode::Create on an absent path both failed"), json!({"part": "create-race"}));
+            return;
+        }
+    }
+    if both > 0 {
+        rep.violation("C17|modes|copy|Create|race|both-succeeded", format!("two concurrent Mode::Create opens of the same absent path both succeeded in {both} of {rounds} rounds (create must fail if and only if the file exists)"), json!({"part": "create-race"}));
+    }
+    // A dangling symlink is a path that exists: Create must not follow it.
+    let link = dir.path().join("dangling");
+    if std::os::unix::fs::symlink(dir.path().join("no-such-target"), &link).is_ok() {
+        let (_w, r) = new_stream::<u32>();
+        rep.count("mode_cases", 1);
+        if FileSink::new(r, &link, Mode::Create).is_ok() {
+            rep.violation("C17|modes|copy|Create|dangling-symlink|open-succeeded", "Mode::Create on a dangling symbolic link succeeded (and created the link's target)".to_string(), json!({"part": "create-symlink"}));
+        }
+    }
+}
+
+fn unprivileged_exe() -> std::path::PathBuf {
+    // uid 65534 must be able to execute the harness; if its directory is not
+    // world-searchable (e.g. under /root), use a copy in the temp directory.
     let exe = std::env::current_exe().expect("exe");
+    let probe = std::process::Command::new(&exe).arg("c17-child").arg("noop").uid(65534).gid(65534).output();
+    // SAFETY: geteuid has no preconditions.
+    if unsafe { libc::geteuid() } != 0 || probe.is_ok() {
+        return exe;
+    }
+    let dst = std::env::temp_dir().join(format!("rrverif-c17-{}", std::process::id()));
+    if std::fs::copy(&exe, &dst).is_ok() {
+        let _ = std::fs::set_permissions(&dst, std::fs::Permissions::from_mode(0o755));
+        return dst;
+    }
+    exe
+}
+
+fn modes(rep: &mut Report) {
+    let exe = unprivileged_exe();
     for kind in ["copy", "packet"] {
         for mode in ["Create", "Overwrite", "Append"] {
             for initial in ["absent", "empty", "non-empty", "directory", "unwritable"] {
@@ -150,6 +210,9 @@ fn modes(rep: &mut Report) {
                 }
             }
         }
+    }
+    if exe != std::env::current_exe().expect("exe") {
+        let _ = std::fs::remove_file(&exe);
     }
 }
 
@@ -328,6 +391,7 @@ pub fn main(opts: &Opts) -> Report {
     rep.exhaustive = Some(false);
     if opts.shard == 0 {
         modes(&mut rep);
+        create_race(&mut rep);
     }
     crashes(opts, &mut rep);
     rep
